@@ -6,10 +6,14 @@ import (
 	"fmt"
 	"os"
 	"path/filepath"
+	"runtime"
 	"sort"
 	"strings"
+	"sync/atomic"
 	"testing"
 	"time"
+
+	"simrt"
 )
 
 var (
@@ -81,10 +85,81 @@ type ReplayFile struct {
 	Trace    []string       `json:"trace"`
 }
 
+// Hang watchdog: the simulator cannot preempt a goroutine that spins without
+// ever reaching a schedule point (an unbounded loop inside corebgp). If no
+// scheduler step happens for hangLimit of wall-clock time while a run is
+// active, the worker writes what it knows (tape so far, the corebgp frame that
+// is running) next to its result file and exits with status 4; the driver
+// confirms by replaying the tape under a timeout.
+var (
+	wdRun     atomic.Int64 // current run index, -1 when idle
+	wdTape    atomic.Pointer[Tape]
+	hangLimit = 30 * time.Second
+)
+
+type HangFile struct {
+	Property string   `json:"property"`
+	Tier     string   `json:"tier"`
+	Seed     uint64   `json:"seed"`
+	Run      int64    `json:"run"`
+	Sig      string   `json:"signature"`
+	Detail   string   `json:"detail"`
+	TapeN    []uint32 `json:"tape_n"`
+	TapeV    []uint32 `json:"tape_v"`
+	Kind     string   `json:"kind"`
+}
+
+func watchdog(prop string) {
+	var lastRun, lastSteps int64 = -2, -1
+	since := time.Now()
+	for {
+		time.Sleep(time.Second)
+		run := wdRun.Load()
+		steps := simrt.GlobalSteps.Load()
+		if run < 0 || run != lastRun || steps != lastSteps {
+			lastRun, lastSteps, since = run, steps, time.Now()
+			continue
+		}
+		if time.Since(since) < hangLimit {
+			continue
+		}
+		buf := make([]byte, 1<<20)
+		buf = buf[:runtime.Stack(buf, true)]
+		fn := "unknown"
+		// the spinning goroutine is "running" or "runnable"
+		for _, g := range strings.Split(string(buf), "\n\n") {
+			if !strings.Contains(g, "[running") && !strings.Contains(g, "[runnable") {
+				continue
+			}
+			if fr := topLibFrame(g); fr != "" {
+				fn = fr
+				if i := strings.Index(fn, "@"); i >= 0 {
+					fn = fn[:i]
+				}
+				break
+			}
+		}
+		hf := HangFile{Property: prop, Tier: *fTier, Seed: *fSeed, Run: run, Kind: "hang",
+			Sig:    prop + "/hang/" + fn,
+			Detail: fmt.Sprintf("no scheduler step for %v of wall-clock time: a goroutine spins inside corebgp (%s) without reaching a schedule point", hangLimit, fn)}
+		if tp := wdTape.Load(); tp != nil {
+			hf.TapeN, hf.TapeV = tp.Recorded()
+		}
+		js, _ := json.MarshalIndent(hf, "", " ")
+		if *fOut != "" {
+			os.WriteFile(*fOut+".hang.json", js, 0o644)
+		}
+		fmt.Printf("HANG %s\n", hf.Sig)
+		os.Exit(4)
+	}
+}
+
 func TestWorker(t *testing.T) {
 	if *fProp == "" && *fReplay == "" {
 		t.Skip("no -prop given")
 	}
+	wdRun.Store(-1)
+	go watchdog(*fProp)
 	if *fReplay != "" {
 		doReplay(t)
 		return
@@ -112,7 +187,10 @@ func TestWorker(t *testing.T) {
 		}
 		tp := NewTape(*fSeed, run)
 		keep := *fVerbose || len(out.Samples) < 2
+		wdTape.Store(tp)
+		wdRun.Store(int64(run))
 		r := RunOne(t, prop, *fTier, tp, keep)
+		wdRun.Store(-1)
 		out.Runs++
 		out.Steps += int64(r.Steps)
 		out.SimNS += int64(r.SimTime)
@@ -284,7 +362,10 @@ func doReplay(t *testing.T) {
 	} else {
 		tp = NewReplayTape(rf.TapeV)
 	}
+	wdTape.Store(tp)
+	wdRun.Store(int64(rf.Run))
 	r := RunOne(t, prop, rf.Tier, tp, true)
+	wdRun.Store(-1)
 	if *fVerbose {
 		for _, l := range r.Log {
 			fmt.Println(l)
